@@ -177,11 +177,22 @@ def ddmin_ops(case: Dict, key: str, reproduces: Callable[[Dict], bool], budget: 
 
 
 def load_findings(prop: str) -> List[Dict]:
-    if not os.path.exists(FINDINGS_FILE):
-        return []
-    with open(FINDINGS_FILE) as f:
-        data = json.load(f)
-    return [x for x in data.get("findings", []) if x.get("property") == prop]
+    """known_findings.json plus per-property findings/known_<ID>.json files (same format)."""
+    import glob
+
+    out = []
+    files = [FINDINGS_FILE] + sorted(glob.glob(os.path.join(VERIF, "findings", "known_*.json")))
+    for fn in files:
+        if not os.path.exists(fn):
+            continue
+        with open(fn) as f:
+            data = json.load(f)
+        out.extend(x for x in data.get("findings", []) if x.get("property") == prop)
+    return out
+
+
+def open_ids(prop: str) -> List[str]:
+    return [f["id"] for f in load_findings(prop) if f.get("status") == "open"]
 
 
 # ---------------------------------------------------------------------------------------------------------------------
